@@ -37,11 +37,12 @@ Strs(F, n) == IF n = 0 THEN {<<>>} ELSE LET S == Strs(F, n - 1) IN S \cup {x \o 
 Focus(FragMode) ==
     CASE FragMode = "doctype" -> [pre |-> <<60,33,68,79,67,84,89,80,69,32,100>>, fr |-> {<<60>>, <<62>>, <<97>>, <<93>>, <<34>>, <<60,33,45,45>>}]
       [] FragMode = "comment" -> [pre |-> <<60,33,45,45>>, fr |-> {<<45>>, <<62>>, <<97>>, <<33>>, <<60>>}]
+      [] FragMode = "comment2" -> [pre |-> <<60,33,45,45>>, fr |-> {<<45>>, <<97>>, <<45,45,62>>, <<62>>}]     \* hyphen runs inside a closed comment
       [] FragMode = "cdata"   -> [pre |-> <<60,33,91,67,68,65,84,65,91>>, fr |-> {<<93>>, <<62>>, <<97>>, <<91>>, <<60>>}]
       [] FragMode = "pi"      -> [pre |-> <<60,63>>, fr |-> {<<63>>, <<62>>, <<97>>, <<120,109,108>>, <<32>>}]
       [] OTHER                -> [pre |-> <<60,97>>, fr |-> {<<34>>, <<39>>, <<62>>, <<47>>, <<61>>, <<32>>, <<97>>}]      \* "tag"
 InputsOf(FragMode, K) ==
-    IF FragMode \in {"doctype", "comment", "cdata", "pi", "tag"}
+    IF FragMode \in {"doctype", "comment", "comment2", "cdata", "pi", "tag"}
     THEN {Focus(FragMode).pre \o x : x \in Strs(Focus(FragMode).fr, K)}
     ELSE Strs(Frags(FragMode), K) \cup Seeds
 
